@@ -254,6 +254,8 @@ def _history(kind, tier, chunk, nchunks, is_canary):
               ("insert(CaT)@branch(2)", "insert(CaL)@branch(2).comp(0)", "delete_channel(CaL)@branch(2).comp(0)"), ("insert(K)@branch(2).comp(1)", "insert(Na)@all", "delete_channel(Na)@branch(0)"),
               ("insert(K)@branch(0)", "insert(Na)@all", "delete_channel(K)@branch(0)", "delete_channel(Na)@all"),
               ("stimulate@branch(2).comp(0)", "stimulate@branch(1)", "stimulate@branch(0)", "delete_stimuli@branch(0)"),
+              ("add_to_group(g)@branch(2)", "set_ncomp(3)@branch(1)") if kind == "cell" else ("add_to_group(g)@branch(2)",),
+              ("add_to_group(g)@branch(2)", "set_ncomp(1)@branch(2)", "set_ncomp(3)@branch(1)") if kind == "cell" else ("add_to_group(g)@branch(2)",),
               ("stimulate@branch(1)", "stimulate@branch(0)", "stimulate@branch(2).comp(0)", "delete_stimuli@branch(0)", "record(v)@all")]
         H = H[chunk::nchunks]
         bad_wf, bad_wf_f10, bad_undo, bad_undo_f10 = [], [], [], []
@@ -262,6 +264,7 @@ def _history(kind, tier, chunk, nchunks, is_canary):
             m = template(kind)
             ok = True
             trail = []
+            gmodel = {}
             for op in h:
                 pre = snapshot(m) if op in UNDO else None
                 pairs0 = _ext_pairs(m) if op.startswith("delete_stimuli") or op.startswith("delete_clamps") else None
@@ -273,6 +276,17 @@ def _history(kind, tier, chunk, nchunks, is_canary):
                     break
                 trail.append(op)
                 w = wf(m)
+                # named groups keep their BRANCH membership through every later operation (set_ncomp re-indexes the rows)
+                if op.startswith("add_to_group("):
+                    gname = op.split("(")[1].split(")")[0]
+                    gmodel[gname] = gmodel.get(gname, set()) | {int(op.split("@branch(")[1].split(")")[0])}      # the view is one whole branch of cell 0
+                if not w:
+                    for gname, want_b in gmodel.items():
+                        rows_g = np.asarray(m.groups.get(gname, []))
+                        got_b = {int(b) for b in m.nodes.loc[rows_g, "global_branch_index"]} if len(rows_g) else set()
+                        full = all(set(int(i) for i in m.nodes.index[m.nodes["global_branch_index"] == b]) <= set(int(i) for i in rows_g) for b in want_b)
+                        if got_b != want_b or not full:
+                            w = [f"group {gname} covers branches {sorted(got_b)} (rows {rows_g.tolist()}), it was made of the whole branches {sorted(want_b)}"]
                 if pairs0 is not None and not w:
                     # deleting inputs through a view removes exactly the inputs on the view's rows; every other (row, waveform) pair survives
                     if op == "delete_stimuli":
